@@ -132,6 +132,8 @@ def gen_case(r, mode, max_nodes=60):
     bi = r.choice([0.0, 0.15, 0.4]) if bip else 0.0
     g.random_edges(nodes, [], density, dup=0.03, bi=bi)
     g.ops.append('S')
+    if r.random() < 0.3:
+        g.ops.append(r.choice(['M', 'm']))
     if r.random() < (0.2 if mode == 'exec' else 0.03):
         g.execute()                       # fresh graph executed directly (finding domain when there are edges)
     g.ops.append('A')
@@ -154,6 +156,8 @@ def gen_case(r, mode, max_nodes=60):
             sg = r.randrange(nsub)
             if not g.can_clear(sg):
                 continue
+            if r.random() < 0.3:
+                g.ops.append(r.choice(['M', 'm']))
             g.clear(sg)
             g.ops.append('S')
             others = g.live()
@@ -271,7 +275,7 @@ def coq_case(line, out):
                 recs = '[' + ';'.join('R %s %s %s' % (P(a), Z(b), Z(c)) for a, b, c in sx[3]) + ']'
                 cnts = '[' + ';'.join('CN %s %s' % (P(n), Z(u64(v))) for n, v in sc[1] if u64(v) != K) + ']'      # kCompleted entries omitted (default)
                 ops.append('IExec %s %s %s %s' % (NAT(t[i + 1]), NAT(t[i + 2]), recs, cnts)); i += 3
-            elif o == 'S':
+            elif o in ('S', 'M', 'm'):      # M / m: move the graph away and back, then dump (the model's structure is unchanged)
                 sg = segs[si]
                 si += 1
                 assert sg[0] == 'G'
